@@ -46,6 +46,14 @@ def task_slow_first(x):
     return (x, "done")
 
 
+# a task that reads state of the CALLING process: parallel map must evaluate fn as the caller's process is at the call
+_TABLE = np.array([3, 1, 4, 1, 5])
+
+
+def task_lookup(i):
+    return int(_TABLE[i % _TABLE.size]) * 100 + i
+
+
 TASKS = {"square": task_square, "raise_on_2": task_raise_on_2, "slow_first": task_slow_first}
 
 
@@ -718,3 +726,29 @@ def main(ctx):
     dunits = [(dp, a, kv) for dp in (0, 50, 150, 400, 700) for a in deep_inputs for kv in (False, True)]
     ctx.lattice("sorts-from-a-deep-stack", dunits, one_deep, engine="environment",
                 bounds=dict(caller_depths=[0, 50, 150, 400, 700], recursion_limit=_sys.getrecursionlimit()))
+
+    # ------------------------------------------------------------ several parallel maps in one process (real pools)
+    # sequences of pmap calls with the SAME and with different worker counts, the caller changing - between the calls -
+    # a module-level table that the task function reads: the result must be list(map(fn, items)) as the calling process
+    # is at the time of the call (worker processes kept from an earlier call would answer from their old snapshot)
+    def pm_pool():
+        _TABLE[:] = [3, 1, 4, 1, 5]
+        return dict(t=_TABLE)
+
+    def pm_run(c, pool):
+        _, nproc, cs, n = c
+        items = list(range(n))
+        got = P.pmap(task_lookup, items, nproc=nproc, chunksize=cs, file=io.StringIO())
+        exp = list(map(task_lookup, items))
+        if got != exp:
+            raise CheckFailed("pmap(nproc=%d, chunksize=%d) returned %r, list(map(fn, items)) in the calling process is %r" % (nproc, cs, got, exp))
+        return [np.asarray(got)]
+
+    def pm_mut(m, pool):
+        pool["t"][:] = pool["t"][::-1] * 2 + m[1]
+
+    PM_CALLS = [("pmap", nproc, cs, 4) for nproc in ctx.pick((1, 2), (1, 2, 3)) for cs in ctx.pick((1, 3), (1, 2, 5))]
+    call_sequences(ctx, "pmap-call-sequences", pm_pool, PM_CALLS, pm_run, lambda: [P], depth=3, nodedup_depth=3,
+                   mutations=[("t", 1)], mutate=pm_mut,
+                   enabled_after=lambda hist, e: not (e[0] == "m" and hist and hist[-1][0] == "m"),
+                   bounds=dict(pool="real ProcessPoolExecutor (fork)", task="reads a module-level table of the calling process"))
